@@ -16,6 +16,7 @@ import (
 	"time"
 
 	"circlsim/core"
+	"circlsim/fixtures"
 
 	"github.com/cloudflare/circl/dh/csidh"
 	"github.com/cloudflare/circl/ecc/bls12381"
@@ -27,6 +28,7 @@ import (
 	"github.com/cloudflare/circl/kem/mlkem/mlkem768"
 	"github.com/cloudflare/circl/math/polynomial"
 	"github.com/cloudflare/circl/secretsharing"
+	tssrsa "github.com/cloudflare/circl/tss/rsa"
 )
 
 // ---- value-model engine ----
@@ -681,6 +683,51 @@ func scenarioFamily() *family {
 		}
 		if rb, _ := rec.MarshalBinary(); !bytes.Equal(rb, sb) {
 			run.Violate("hist[scenarios].secretsharing.Recover", "modifying-returned-share-changes-later-results", "t=%d: the secret recovered from a later batch is wrong", t)
+		}
+	})
+	sc("tss/rsa.KeyShare.Sign(second-use)", func(run *core.Run, imm uint64) {
+		key := fixtures.RSAKey("std-1024-a")
+		cache, blind := imm&1 == 1, imm&2 == 2
+		shares, err := tssrsa.Deal(core.NewStream(imm), 3, 2, key, cache)
+		if err != nil {
+			panic("HARNESS: Deal: " + err.Error())
+		}
+		digest := make([]byte, 128)
+		digest[127] = byte(imm>>2) | 1
+		var second []tssrsa.SignShare
+		for i := 0; i < 2; i++ {
+			ks := &shares[(int(imm>>4)+i)%3]
+			enc0, _ := ks.MarshalBinary()
+			sign := func(n uint64) tssrsa.SignShare {
+				var ss tssrsa.SignShare
+				var err error
+				if blind {
+					ss, err = ks.Sign(core.NewStream(imm+n), &key.PublicKey, digest, false)
+				} else {
+					ss, err = ks.Sign(nil, &key.PublicKey, digest, false)
+				}
+				if err != nil {
+					panic("HARNESS: Sign: " + err.Error())
+				}
+				return ss
+			}
+			s1 := sign(7)
+			enc1, _ := ks.MarshalBinary()
+			if cache && !bytes.Equal(enc0, enc1) {
+				run.Violate("hist[scenarios].tss/rsa.KeyShare.Sign", "operation-modifies-its-receiver", "cache=%v blind=%v: the key share encodes differently after Sign", cache, blind)
+				return
+			}
+			s2 := sign(7)
+			b1, _ := s1.MarshalBinary()
+			b2, _ := s2.MarshalBinary()
+			if !bytes.Equal(b1, b2) {
+				run.Violate("hist[scenarios].tss/rsa.KeyShare.Sign", "stale-or-aliased-state", "cache=%v blind=%v: signing the same digest twice with the same share and the same randomness gives different partial signatures", cache, blind)
+				return
+			}
+			second = append(second, s2)
+		}
+		if _, err := tssrsa.CombineSignShares(&key.PublicKey, second, digest); err != nil {
+			run.Violate("hist[scenarios].tss/rsa.KeyShare.Sign", "stale-or-aliased-state", "cache=%v blind=%v: partial signatures from the second use of each share do not combine: %v", cache, blind, err)
 		}
 	})
 	sc("expander/HashToElement(dst-with-spare-capacity)", func(run *core.Run, imm uint64) {
